@@ -21,7 +21,30 @@ def cases(tier):
     return fixfam.fix_cases(
         tier, rulesets_raw=("layout", "all", "format"), rulesets_yaml=("all",) if tier == "quick" else ("all", "format"),
         rulesets_fixtures=("all",),
-    )
+    ) + fixfam.layout_product_cases(("layout", "all"))
+
+
+def _single_target_over_limit(lnt, *trees):
+    """Root-cause label only (never a verdict): some SELECT clause with exactly one target whose one-line
+    form 'SELECT [modifier] target' is longer than max_line_length -- LT09 (pull the single target up) and
+    LT05 (break the long line) then undo each other on the unchanged tree (known finding)."""
+    mll = lnt.config.get("max_line_length") or 0
+    if mll <= 0:
+        return False
+    for tree in trees:
+        if tree is None:
+            continue
+        for sc in tree.recursive_crawl("select_clause"):
+            els = [c for c in sc.segments if c.is_type("select_clause_element")]
+            if len(els) != 1:
+                continue
+            try:
+                col = max(sc.pos_marker.working_line_pos - 1, 0)
+            except Exception:
+                col = 0
+            if col + len(" ".join(sc.raw.split())) > mll:
+                return True
+    return False
 
 
 def oracle(one, lnt, text, lf, fixed, add, res):
@@ -41,7 +64,11 @@ def oracle(one, lnt, text, lf, fixed, add, res):
         add("second_run_unfixable", {}, {"fixed": fixed[:300]})
     elif fixed2 != fixed:
         codes = sorted({v.rule_code() for v in lf2.violations if getattr(v, "fixes", None)})
-        add("not_idempotent", {"rules": ",".join(codes)[:60]}, {"first": fixed[:300], "second": fixed2[:300]})
+        add(
+            "not_idempotent",
+            {"rules": ",".join(codes)[:60], "single_target_over_limit": _single_target_over_limit(lnt, lf.tree, lf2.tree)},
+            {"first": fixed[:300], "second": fixed2[:300]},
+        )
     if fixed != text:
         res["cls"].add(digest((text, fixed)))
         return True
